@@ -945,6 +945,10 @@ func (g *Gen) presInstances(o *Obligation) {
 						bound = "(<= " + rj[0] + " " + pr.alloc + ")"
 					}
 					added = append(added, implies(pr.reach, fmt.Sprintf("(=> (and %[2]s (not %[3]s)) (= (select (select %[4]s %[1]s) %[5]s) (select (select %[6]s %[1]s) %[5]s)))", rj[0], bound, exc, pr.cur, rj[1], pr.old)))
+					if pr.inside != "" {
+						in := replaceTok(replaceTok(pr.inside, "r!", rj[0]), "j!", rj[1])
+						added = append(added, implies(pr.reach, fmt.Sprintf("(=> (and %[2]s %[3]s) (= (select (select %[4]s %[1]s) %[5]s) %[6]s))", rj[0], bound, exc, pr.cur, rj[1], in)))
+					}
 				}
 				continue
 			}
